@@ -819,6 +819,16 @@ def glue_greenlet() -> None:
                     and outer_frame.f_back is not None
                 ):
                     outer_frame = outer_frame.f_back
+        elif sys.implementation.name == "cpython":
+            # The greenlet is suspended. Its stack ends at its own outermost
+            # frame (the one with f_back of None), even if we're being
+            # called from a greenlet that is a descendant of this one; in
+            # that case, unwrap_stackslice() would continue through the
+            # greenlet parent chain of the *current* greenlet, prepending
+            # the frames of this greenlet's ancestors.
+            outer_frame = inner_frame
+            while outer_frame.f_back is not None:
+                outer_frame = outer_frame.f_back
         return StackSlice(outer=outer_frame, inner=inner_frame)
 
     if sys.implementation.name != "pypy":
